@@ -36,6 +36,8 @@ FAMILIES = {
     "real-complex": ([complex(1, 0), complex(2, 0)], "complex128", [complex(1, 2)]),
     "bools-object": ([True, False], object, ["x", 2, None]),
     "str-dates": (["2020-01-01", "2021-06-30"], object, ["hello", "2020-13-45"]),
+    # day-first dates: the first row fixes the format pandas guesses for the whole column; a sample may guess another
+    "dmy-dates": (["03/02/2013", "05/06/2014", "11/12/2015", "25/12/2016", "13/01/2020"], object, ["hello"]),
 }
 LENGTHS = [1000, 1001, 1499, 1500, 2000, 2345, 3000]
 SMALL = [0, 1, 5, 12, 999]
@@ -76,6 +78,8 @@ def build(case):
     idx = r.randint(0, len(base), size=case["n"])
     vals = [base[i] for i in idx]
     homogeneous = dtype is not object
+    if case["family"] == "dmy-dates" and vals:
+        vals[0] = "13/01/2020"
     for p, c in zip(case["pos"], case["contam"]):
         vals[p] = contam[c]
     if homogeneous:
@@ -189,6 +193,11 @@ def run(tier, seed, nproc=16):
         for n, pos in ((1500, [1400]), (2345, [2001]), (1001, [1000]), (3000, [2999])):
             cases.append({"family": fam, "n": n, "kind": "tail-block", "pos": pos, "contam": [0], "base_seed": 7,
                           "sample_size": 10, "draws": [1, 2, 3], "typeset": "complete"})
+    # uncontaminated day-first dates: state written while typing the sample must not change how the full column is cast
+    for n in (1000, 1500, 2345):
+        for k in (5, 10, 50):
+            cases.append({"family": "dmy-dates", "n": n, "kind": "none", "pos": [], "contam": [], "base_seed": n + k,
+                          "sample_size": k, "draws": [11, 12, 13, 14, 15, 16], "typeset": rng.choice(["standard", "complete"])})
     chunks = [cases[i::nproc] for i in range(nproc)]
     with mp.Pool(nproc) as pool:
         outs = pool.map(_worker, [c for c in chunks if c])
